@@ -124,6 +124,29 @@ pub fn sampler() -> Vec<(String, String)> {
     ("sampler_complex", "a := 1+2i; b := 3+4i; c := a + b"),
     ("sampler_logical_index", "x := [1 2 3 4]; ix := [true false true false]; y := x[ix]"),
     ("sampler_chain", "a := 1; b := a + 1; c := b * 2; d := c - a; e := d / b"),
+    ("sampler_enum", "<color> := :red | :green | :blue\nx<color> := :red"),
+    ("sampler_atom", "a := :ok"),
+    ("sampler_kind_define", "<dist> := <f64>\nd<dist> := 5"),
+    ("sampler_nested_record", "r := {a: 1, m: [1 2 3], s: \"x\"}\nq := r.a + 1"),
+    ("sampler_map", "m := {\"a\": 1, \"b\": 2}\nv := m{\"a\"}"),
+    ("sampler_table_strings", "t := |n<string> v<f64>| \"a\" 1 | \"b\" 2 |\nc := t.v"),
+    ("sampler_table_join", "A := |id<u64> a<u64>| 1 10 | 2 20 | 3 30 |\nB := |id<u64> b<u64>| 2 200 | 3 300 | 4 400 |\nJ := A ⋈ B"),
+    ("sampler_set_ops", "A := {1, 2, 3}\nB := {2, 3, 4}\nU := A ∪ B\nI := A ∩ B\nD := A ∖ B\nS := A ⊆ B"),
+    ("sampler_compare_vec", "a := [1 2 3]\nb := [3 2 1]\nc := a > b\nd := a == b"),
+    ("sampler_logic_vec", "a := [true false true]\nb := [false false true]\nc := a && b\nd := a || b"),
+    ("sampler_four_rows", "m := [1 2; 3 4; 5 6; 7 8]\nv := [1; 2; 3; 4]"),
+    ("sampler_five_pieces", "a := [1 2]\nb := [a a a a a]\nc := [a; a; a; a; a]"),
+    ("sampler_big_matrix", "m := [1 2 3 4 5; 6 7 8 9 10; 11 12 13 14 15; 16 17 18 19 20; 21 22 23 24 25]\nt := m'\ns := m + t"),
+    ("sampler_range_step", "a := 1..=10\nb := a + 1"),
+    ("sampler_index_vectors", "x := [10 20 30 40 50]\na := x[[1 3 5]]\nb := x[2..=4]\nc := x[[true false true false true]]"),
+    ("sampler_index_2d", "x := [1 2 3; 4 5 6; 7 8 9]\na := x[[1 3],2]\nb := x[2,[1 3]]\nc := x[1..=2,2..=3]\nd := x[:,[1 2]]"),
+    ("sampler_assign_kinds", "~a<[u8]:1,3> := [1 2 3]\na[2] = 9u8\n~b<[i64]:2,2> := [1 2 3 4]\nb[1,2] = 7<i64>\n~c := [\"a\" \"b\"]\nc[1] = \"z\""),
+    ("sampler_op_assign_kinds", "~a<[u16]:1,3> := [1 2 3]\na += 1u16\na[[1 2]] *= 2u16\n~b := [1.5 2.5]\nb /= 2\nb[1] -= 1"),
+    ("sampler_function", "inc(x<f64>) = z<f64> :=\n    z := x + 1.\ny := inc(5)"),
+    ("sampler_fsm", "#C(n<u64>) => <u64>\n  ├ :A(n<u64>)\n  └ :Done(n<u64>).\n\n#C(n<u64>) -> :A(n)\n  :A(n)\n    ├ n > 0u64 -> :A(n - 1u64)\n    └ n == 0u64 -> :Done(7u64)\n  :Done(n) => n.\n\nr := #C(3u64)"),
+    ("sampler_strings_many", "a := \"alpha\"\nb := \"β-unicode ✓\"\nc := a + b\nd := [a b; b a]"),
+    ("sampler_f32_ops", "a := 1.5<f32>\nb := a * 2<f32>\nm<[f32]:1,3> := [1 2 3]\nn := m + a"),
+    ("sampler_wide_ints", "a := 340282366920938463463374607431768211455u128\nb := 5<i128>\nc := b * b"),
     ("sampler_many_consts", "a := 1; b := 2.5; c := \"s\"; d := true; e := [1 2 3]; f := [1; 2]; g := [1 2; 3 4]; h := 7u8; i := 9<i64>"),
   ] { out.push((n.to_string(), p.to_string())); }
   out
